@@ -297,6 +297,46 @@ Fixpoint fold_ints (e : sexpr) : sexpr :=
   | ECall2 g a b => ECall2 g (fold_ints a) (fold_ints b)
   end.
 
+(* ---- operations CPython performs on PYTHON numbers ----
+   A series read (and np.exp / np.log) yields a NumPy float64; a literal is a Python number, and an operation both of whose
+   operands are Python numbers is computed by CPython, not by NumPy: `1/0` raises ZeroDivisionError (NumPy: inf and a
+   warning), `10.0 ** 400` raises OverflowError, `(-8) ** 0.5` is complex, `10 ** 400` is an int no float can hold.
+   isnp e: e is CERTAINLY a NumPy scalar.  py_ok e: no division whose operands may both be Python numbers unless the
+   divisor is a non-zero literal, no power whose operands may both be Python numbers.  A statement that is not py_ok is outside
+   the subset (fail-closed); + - * abs max min and comparisons of Python numbers behave like the float operations. *)
+Fixpoint isnp (e : sexpr) : bool :=
+  match e with
+  | ENum _ => false
+  | ERead _ _ => true
+  | ENeg a | EAbs a => isnp a
+  | EBin _ a b => isnp a || isnp b
+  | EMax a b | EMin a b => isnp a && isnp b
+  | EIf _ _ _ a b => isnp a && isnp b
+  | ECall1 _ _ | ECall2 _ _ _ => true
+  end.
+Fixpoint has_nonzero_digit (s : string) : bool :=
+  match s with "" => false | String c r => (is_digit c && negb (Ascii.eqb c "0")) || has_nonzero_digit r end.
+Definition nonzero_lit (e : sexpr) : bool :=
+  match e with
+  | ENum s => has_nonzero_digit s
+  | ENeg (ENum s) => has_nonzero_digit s
+  | _ => false
+  end.
+Fixpoint py_ok (e : sexpr) : bool :=
+  match e with
+  | ENum _ | ERead _ _ => true
+  | ENeg a | EAbs a | ECall1 _ a => py_ok a
+  | EBin o a b =>
+    py_ok a && py_ok b &&
+    match o with
+    | ODiv => isnp a || isnp b || nonzero_lit b
+    | OPow => isnp a || isnp b
+    | _ => true
+    end
+  | EMax a b | EMin a b | ECall2 _ a b => py_ok a && py_ok b
+  | EIf _ l r a b => py_ok l && py_ok r && py_ok a && py_ok b
+  end.
+
 Section Tree.
   Variable row : string -> option nat.        (* position of a series in NAMES *)
 
@@ -503,7 +543,7 @@ Section Test.
   (* … and the statement it denotes *)
   Definition stmt_of_tokens (ts : list ctok) : option (string * sstmt) :=
     match src_of_tokens ts with
-    | Some (y, i, k0, st) => Some (y, SAssign i k0 (fold_ints (denote st)))
+    | Some (y, i, k0, st) => let e := fold_ints (denote st) in if py_ok e then Some (y, SAssign i k0 e) else None
     | None => None
     end.
 
